@@ -109,3 +109,18 @@ Theorem C10_translated_admission_agrees :
     then 0%N else 1%N.
 Proof. exact add_tx_agrees. Qed.
 Print Assumptions C10_translated_admission_agrees.
+
+(* Whatever makes block execution answer a transaction with the error code (a structurally
+   invalid payload of any message type by any sender, a keyper included), it emits no events and
+   changes nothing but the record of its own (signer, nonce) pair; the one exception is spelled
+   out: a config vote may leave the vote table changed (and nothing else). *)
+Theorem C10_error_code_means_no_effect :
+  forall e s t s' code evs,
+    deliver_tx e s t = Some (s', (code, evs)) -> code = code_error ->
+    evs = [] /\
+    (s' = s \/
+     exists signer chain nonce p, t = Tx signer chain nonce p /\
+       let s1 := set_nonces s ((signer, nonce) :: nonces s) in
+       (s' = s1 \/ (exists act ks th i, p = PBatchConfig act ks th i) /\ same_but_cfg_voting s' s1)).
+Proof. exact error_code_no_effect. Qed.
+Print Assumptions C10_error_code_means_no_effect.
